@@ -47,6 +47,25 @@ def runOp (c : Cfg) (s : Engine) : Op → Except OpenErr Engine
   | .close => s.checkpointOnClose.reopen
   | .reopen => s.reopen
 
+/-- a write transaction whose commit fails at its `j`-th log append -/
+def runTxFail (c : Cfg) (s : Engine) (ops : List TxOp) (j : Nat) : Engine :=
+  let st := ops.foldl (stepTx c) s.beginWrite
+  st.1.commitFail c st.2 j
+
+/-- histories that also hold failed commits (C07) -/
+inductive XOp
+  | op (o : Op)
+  | txFail (ops : List TxOp) (j : Nat)
+
+def runX (c : Cfg) (s : Engine) : XOp → Except OpenErr Engine
+  | .op o => runOp c s o
+  | .txFail ops j => .ok (runTxFail c s ops j)
+
+/-- what the history looks like to everyone but the log: a failed commit is an abandoned transaction -/
+def XOp.erase : XOp → Op
+  | .op o => o
+  | .txFail ops _ => .tx ops false
+
 /-- `M.run`: the engine after a history, starting from a fresh database -/
 def run (c : Cfg) (h : List Op) : Except OpenErr Engine := h.foldlM (runOp c) {}
 
